@@ -36,8 +36,43 @@ pub fn simplify_cfg(
     modified |= remove_dead_blocks(context, &function)?;
     modified |= merge_blocks(context, &function)?;
     modified |= unlink_empty_blocks(context, &function)?;
+    modified |= fold_same_dest_cbrs(context, &function);
     modified |= remove_dead_blocks(context, &function)?;
     Ok(modified)
+}
+
+/// A conditional branch whose two destinations are the same block, receiving the same arguments,
+/// is an unconditional branch to that block.
+///
+/// Unlinking empty blocks can leave such branches behind. They must not survive: blocks track
+/// a single edge per predecessor, so later passes that add or remove block arguments would only
+/// update one of the two destinations, and ASM generation cannot compile a conditional branch
+/// with both destinations being the same block with arguments.
+fn fold_same_dest_cbrs(context: &mut Context, function: &Function) -> bool {
+    let mut modified = false;
+    let blocks: Vec<_> = function.block_iter(context).collect();
+    for block in blocks {
+        let Some(term) = block.get_terminator_mut(context) else {
+            continue;
+        };
+        let same_dest = match &term.op {
+            InstOp::ConditionalBranch {
+                true_block,
+                false_block,
+                ..
+            } if true_block.block == false_block.block
+                && true_block.args == false_block.args =>
+            {
+                Some(true_block.clone())
+            }
+            _ => None,
+        };
+        if let Some(dest) = same_dest {
+            term.op = InstOp::Branch(dest);
+            modified = true;
+        }
+    }
+    modified
 }
 
 fn unlink_empty_blocks(context: &mut Context, function: &Function) -> Result<bool, IrError> {
